@@ -188,6 +188,12 @@ _MORE = {
     ('mchap.jitutils', '_comb_with_replacement'): ['C09', 'C18'],
     ('mchap.jitutils', 'comb'): ['C09', 'C18'],
     ('mchap.jitutils', '_comb'): ['C09', 'C18'],
+    # DP, RCOUNT, RCALLS and SNVDP are counts of the read matrix *as written*: the number formatting and the INFO sums are part of C06
+    ('mchap.io.vcf.util', 'vcfstr'): ['C06'],
+    ('mchap.io.vcf.records', 'format_sample_field'): ['C06'],
+    ('mchap.io.vcf.records', 'format_info_field'): ['C06'],
+    ('mchap.application.baseclass', 'program.sumarise_vcf_record'): ['C06'],
+    ('mchap.application.baseclass', 'LocusAssemblyData._sampledata_as_list'): ['C06'],
     ('mchap.calling.likelihood', 'log_likelihood_alleles_cached'): ['C04'],         # the value the calling sampler takes as the read likelihood
     ('mchap.application.baseclass', 'program.require_AFP'): ['C03'],                # which report fields switch the posterior summaries on
     ('mchap.calling.classes', 'CallingMCMC.fit'): ['C02', 'C14'],                 # chains run, collected and wrapped into the multi-trace
